@@ -927,7 +927,14 @@ func (c *Client) clockUpdate(update *MsgSrvUpdate, queueLocked bool) bool {
 
 	checksumTime := mTime
 	if c.SyncShallowClocks {
-		checksumTime = am.NewTime(checksumTime, c.trackedStateIdxs)
+		// like the server: 1 for each active tracked state
+		var active []int
+		for _, idx := range c.trackedStateIdxs {
+			if idx < len(mTime) && am.IsActiveTick(mTime[idx]) {
+				active = append(active, idx)
+			}
+		}
+		checksumTime = am.NewTime(checksumTime, active)
 	}
 	check := Checksum(checksumTime.Sum(nil), qTick, machTick)
 
